@@ -14,7 +14,7 @@ RULE = ('Engine A: FULL(2), FULL(3) x subsets of the four size/ratio/volume cons
         'Oracle: every greedy design lies in the brute-force feasible set F (legal, sizes, ratios, volume); its score '
         '<= the exhaustive best and <= the brute-force best; F empty or exhaustive empty => greedy returns nothing '
         '(ValueError counts as nothing); reference-free differential: every greedy design is among the designs the exhaustive '
-        'search ranks on the same input with n_designs large; plus THRESH volume bounds on a share-DRIFT panel with a short window. Non-trivial = greedy returned >= 1 design and F has >= 2 designs; distinct '
+        'search ranks on the same input with n_designs large; plus weakly correlated panels x min_corr in {0.8,0.95,0.999}, plus THRESH volume bounds on a share-DRIFT panel with a short window. Non-trivial = greedy returned >= 1 design and F has >= 2 designs; distinct '
         '= distinct case.')
 ASSUMPTIONS = ['values: fixed integer panels', 'feasible set drawn from the admitted geos (scope S4)']
 
@@ -32,6 +32,7 @@ def cases(tier, seed):
     # share-DRIFT panel, short window: volume bounds between all critical values of the all-dates and windowed readings
     parts.append(spaces.threshold_space({'name': 'D', 'G': 4, 'T': T}, methods=('exhaustive_search',),
                                         base_kw={'n_designs': 3, 'n_pretest_max': 6}, parts=('volume',)))
+    parts.append(spaces.weak_space(k_values=(1, 3)))
     if seed:
         parts.append(spaces.dev_configs({'name': 'C', 'G': 3, 'T': T, 'seed': seed}, 2, INCLUDE, base_kw={'n_designs': 3}))
     out = [c for part in parts for c in part if spaces.precondition_ok(c)]
